@@ -309,6 +309,11 @@ func (fx *FuncCtx) evalBuiltin(st *State, name string, call *ast.CallExpr) Val {
 			mv := MapV{Ref: ref, T: u}
 			fx.mapInitEmpty(st, mv)
 			return mv
+		case *types.Chan:
+			for _, a := range call.Args[1:] {
+				fx.eval(st, a)
+			}
+			return fx.allocRef(st, "chan")
 		}
 		fx.unsupportedf("make(%s)", t)
 	case "new":
@@ -514,6 +519,17 @@ func (fx *FuncCtx) callStatic(st *State, callee *types.Func, call *ast.CallExpr)
 			fx.unsupportedf("method expression %s", fx.src(call))
 		}
 	}
+	if callee.Pkg() != nil && callee.Pkg().Path() == "sync" {
+		// WaitGroup / Mutex / Once.Do are scheduling devices: fork-join semantics (A7)
+		switch callee.Name() {
+		case "Add", "Done", "Wait", "Lock", "Unlock", "RLock", "RUnlock":
+			for _, a := range call.Args {
+				fx.eval(st, a)
+			}
+			return TupleV{}
+		}
+		fx.unsupportedf("sync.%s", callee.Name())
+	}
 	// library models first
 	if v, ok := fx.libraryModel(st, callee, qn, recv, call); ok {
 		return v
@@ -693,64 +709,73 @@ func (fx *FuncCtx) calleeEnv(st *State, con *Contract, callee *types.Func, recv 
 
 // inlineCall executes the callee body in place.
 func (fx *FuncCtx) inlineCall(st *State, callee *types.Func, fd *ast.FuncDecl, pkg *pkgInfo, recv Val, args []Val, call *ast.CallExpr) Val {
-	if fx.inlineDepth >= 4 {
-		fx.unsupportedf("inline depth exceeded at %s", callee.Name())
-	}
 	for _, a := range fx.inlineStack {
 		if a == callee {
 			fx.unsupportedf("recursive call to %s without contract", callee.Name())
 		}
 	}
-	sig := callee.Type().(*types.Signature)
-	// save context
-	saved := struct {
-		pkg     interface{}
-		info    *types.Info
-		decl    *ast.FuncDecl
-		results []*types.Var
-		exits   []*Exit
-		nodeOrd map[ast.Node]int
-		loopOrd map[ast.Node]int
-		con     *Contract
-		tpkg    *pkgInfo
-	}{nil, fx.info, fx.decl, fx.results, fx.exits, fx.nodeOrd, fx.loopOrd, fx.con, fx.cur}
+	fx.inlineStack = append(fx.inlineStack, callee)
+	defer func() { fx.inlineStack = fx.inlineStack[:len(fx.inlineStack)-1] }()
+	return fx.inlineBody(st, &inlineTarget{name: callee.Name(), sig: callee.Type().(*types.Signature), recv: fd.Recv, ftype: fd.Type, body: fd.Body, pkg: pkg, decl: fd}, recv, args)
+}
+
+type inlineTarget struct {
+	name  string
+	sig   *types.Signature
+	recv  *ast.FieldList
+	ftype *ast.FuncType
+	body  *ast.BlockStmt
+	pkg   *pkgInfo      // nil: closure of the current function
+	decl  *ast.FuncDecl // nil for closures
+}
+
+func (fx *FuncCtx) inlineBody(st *State, tg *inlineTarget, recv Val, args []Val) Val {
+	if fx.inlineDepth >= 5 {
+		fx.unsupportedf("inline depth exceeded at %s", tg.name)
+	}
+	sig := tg.sig
+	savedInfo, savedDecl, savedResults, savedExits := fx.info, fx.decl, fx.results, fx.exits
+	savedNodeOrd, savedLoopOrd, savedCon, savedCur, savedPkg := fx.nodeOrd, fx.loopOrd, fx.con, fx.cur, fx.pkg
+	savedDefers := fx.defers
 	outerCon := fx.con
-	fx.info, fx.decl, fx.cur = pkg.pkg.TypesInfo, fd, pkg
-	fx.nodeOrd, fx.loopOrd = nil, nil
+	info := fx.info
+	if tg.pkg != nil {
+		fx.info, fx.decl, fx.cur, fx.pkg = tg.pkg.pkg.TypesInfo, tg.decl, tg.pkg, tg.pkg.pkg
+		info = fx.info
+		fx.nodeOrd, fx.loopOrd = nil, nil
+		fx.con = &Contract{Loops: map[int]*LoopSpec{}, Options: map[string]string{}}
+		if outerCon != nil {
+			fx.con.Props = outerCon.Props
+			// stores of the inlined callee are still checked against the caller's frame
+			fx.con.Writes, fx.con.HasWrites = outerCon.Writes, outerCon.HasWrites
+			fx.con.Witnesses = nil
+		}
+	}
 	fx.exits = nil
+	fx.defers = nil
 	fx.inlineDepth++
 	fx.freshN["inl"]++
-	fx.inlineStack = append(fx.inlineStack, callee)
-	fx.con = &Contract{Props: nil, Loops: map[int]*LoopSpec{}, Options: map[string]string{}}
-	if outerCon != nil {
-		fx.con.Props = outerCon.Props
-		fx.con.Writes, fx.con.HasWrites = nil, false
-	}
-	savedPkg := fx.pkg
-	fx.pkg = pkg.pkg
 	defer func() {
-		fx.info, fx.decl, fx.results, fx.nodeOrd, fx.loopOrd, fx.con, fx.cur = saved.info, saved.decl, saved.results, saved.nodeOrd, saved.loopOrd, saved.con, saved.tpkg
-		fx.pkg = savedPkg
+		fx.info, fx.decl, fx.results, fx.nodeOrd, fx.loopOrd, fx.con, fx.cur, fx.pkg = savedInfo, savedDecl, savedResults, savedNodeOrd, savedLoopOrd, savedCon, savedCur, savedPkg
+		fx.defers = savedDefers
 		fx.inlineDepth--
-		fx.inlineStack = fx.inlineStack[:len(fx.inlineStack)-1]
 	}()
 
 	body := st.clone()
-	// callee locals live in a separate map layer: reuse st.vars but remember keys
 	outerVars := body.vars
 	body.vars = map[types.Object]Val{}
 	for k, v := range outerVars {
 		body.vars[k] = v
 	}
-	if sig.Recv() != nil && fd.Recv != nil && len(fd.Recv.List) > 0 && len(fd.Recv.List[0].Names) > 0 {
-		if obj := pkg.pkg.TypesInfo.Defs[fd.Recv.List[0].Names[0]]; obj != nil {
+	if sig.Recv() != nil && tg.recv != nil && len(tg.recv.List) > 0 && len(tg.recv.List[0].Names) > 0 {
+		if obj := info.Defs[tg.recv.List[0].Names[0]]; obj != nil {
 			fx.bind(body, obj, recv)
 		}
 	}
 	i := 0
-	for _, f := range fd.Type.Params.List {
+	for _, f := range tg.ftype.Params.List {
 		for _, n := range f.Names {
-			if obj := pkg.pkg.TypesInfo.Defs[n]; obj != nil && i < len(args) {
+			if obj := info.Defs[n]; obj != nil && i < len(args) {
 				fx.bind(body, obj, args[i])
 			}
 			i++
@@ -760,12 +785,14 @@ func (fx *FuncCtx) inlineCall(st *State, callee *types.Func, fd *ast.FuncDecl, p
 		}
 	}
 	fx.results = nil
-	if fd.Type.Results != nil {
-		for _, f := range fd.Type.Results.List {
+	namedResults := false
+	if tg.ftype.Results != nil {
+		for _, f := range tg.ftype.Results.List {
 			for _, n := range f.Names {
-				if obj, ok := pkg.pkg.TypesInfo.Defs[n].(*types.Var); ok {
+				if obj, ok := info.Defs[n].(*types.Var); ok {
 					fx.results = append(fx.results, obj)
 					fx.bind(body, obj, fx.zeroVal(obj.Type()))
+					namedResults = true
 				}
 			}
 		}
@@ -775,16 +802,14 @@ func (fx *FuncCtx) inlineCall(st *State, callee *types.Func, fd *ast.FuncDecl, p
 			fx.results = append(fx.results, sig.Results().At(j))
 		}
 	}
-	fl := fx.execBlock(body, fd.Body.List)
+	fl := fx.execBlock(body, tg.body.List)
 	if fl.normal != nil {
-		if sig.Results().Len() > 0 && (fd.Type.Results == nil || len(fd.Type.Results.List[0].Names) == 0) {
-			// falling off the end of a function with results is impossible in Go
-		} else {
-			fx.execReturn(fl.normal, &ast.ReturnStmt{Return: fd.Body.Rbrace})
+		if sig.Results().Len() == 0 || namedResults {
+			fx.execReturn(fl.normal, &ast.ReturnStmt{Return: tg.body.Rbrace})
 		}
 	}
 	inner := fx.exits
-	fx.exits = saved.exits
+	fx.exits = savedExits
 	var rets []*Exit
 	for _, e := range inner {
 		if e.kind == "panic" {
@@ -793,35 +818,32 @@ func (fx *FuncCtx) inlineCall(st *State, callee *types.Func, fd *ast.FuncDecl, p
 			rets = append(rets, e)
 		}
 	}
+	nres := sig.Results().Len()
 	if len(rets) == 0 {
 		st.assume(tFalse)
-		if sig.Results().Len() == 0 {
-			return TupleV{}
-		}
 		var zs []Val
-		for j := 0; j < sig.Results().Len(); j++ {
+		for j := 0; j < nres; j++ {
 			zs = append(zs, fx.zeroVal(sig.Results().At(j).Type()))
 		}
-		if len(zs) == 1 {
+		switch len(zs) {
+		case 0:
+			return TupleV{}
+		case 1:
 			return zs[0]
 		}
 		return TupleV(zs)
 	}
-	// merge the return states back into st
 	var states []*State
 	for _, e := range rets {
-		s := e.st
-		states = append(states, s)
+		states = append(states, e.st)
 	}
 	base := st.clone()
 	var merged *State
-	nres := sig.Results().Len()
 	var results []Val
 	if len(states) == 1 {
 		merged = states[0]
 		results = rets[0].results
 	} else {
-		// merge result values alongside: stash them as pseudo variables
 		pseudo := make([]*types.Var, nres)
 		for j := 0; j < nres; j++ {
 			pseudo[j] = types.NewVar(token.NoPos, nil, fmt.Sprintf("ret%d", j), sig.Results().At(j).Type())
@@ -837,7 +859,6 @@ func (fx *FuncCtx) inlineCall(st *State, callee *types.Func, fd *ast.FuncDecl, p
 			results = append(results, merged.vars[pseudo[j]])
 		}
 	}
-	// restore caller's variable view (callee cannot assign caller locals)
 	nv := map[types.Object]Val{}
 	for k := range outerVars {
 		if v, ok := merged.vars[k]; ok {
@@ -862,8 +883,15 @@ func (fx *FuncCtx) inlineCall(st *State, callee *types.Func, fd *ast.FuncDecl, p
 }
 
 func (fx *FuncCtx) callClosure(st *State, lit *ast.FuncLit, call *ast.CallExpr) Val {
-	fx.unsupportedf("closure call %s", fx.src(call))
-	return nil
+	sig, ok := fx.info.Types[lit].Type.(*types.Signature)
+	if !ok {
+		fx.unsupportedf("closure without signature")
+	}
+	var args []Val
+	if call != nil {
+		args = fx.evalArgs(st, sig, call)
+	}
+	return fx.inlineBody(st, &inlineTarget{name: "closure", sig: sig, ftype: lit.Type, body: lit.Body}, nil, args)
 }
 
 func (fx *FuncCtx) callUnknownFunc(st *State, f FuncV, call *ast.CallExpr) Val {
@@ -871,12 +899,65 @@ func (fx *FuncCtx) callUnknownFunc(st *State, f FuncV, call *ast.CallExpr) Val {
 	return nil
 }
 
+// execGo: fork-join model (assumption A7). The goroutine body is executed in
+// place; its effects are those of some sequential order. Footprint
+// disjointness is a separate lemma in the contract file.
 func (fx *FuncCtx) execGo(st *State, x *ast.GoStmt) Flow {
-	fx.unsupportedf("go statement")
-	return Flow{}
+	lit, ok := unparen(x.Call.Fun).(*ast.FuncLit)
+	if !ok {
+		fx.unsupportedf("go statement without function literal")
+	}
+	if fx.con != nil && fx.inlineDepth == 0 && (len(fx.con.GoFootprint) > 0 || len(fx.con.GoRequires) > 0) {
+		// bind the goroutine's parameters to the actual arguments for the footprint clauses
+		sig := fx.info.Types[lit].Type.(*types.Signature)
+		args := fx.evalArgs(st.clone(), sig, x.Call)
+		env := &specEnv{fx: fx, cur: st, old: fx.entry, binds: map[string]sval{}, pos: x.Pos()}
+		k := 0
+		for _, f := range lit.Type.Params.List {
+			for _, n := range f.Names {
+				if k < len(args) {
+					env.binds[n.Name] = sval{args[k], sig.Params().At(k).Type()}
+				}
+				k++
+			}
+		}
+		for _, r := range fx.con.GoRequires {
+			fx.oblige(st, "go.pre", fx.specBool(env, r.Expr), x, "go-requires "+r.Src)
+		}
+		if len(fx.con.GoFootprint) > 0 {
+			fp := fx.instFamilies(env, fx.con.GoFootprint)
+			// the footprint lies inside the function's own write frame
+			for _, f := range fp {
+				fx.checkCallFrame(st.clone(), f, x, "goroutine footprint")
+			}
+			saved := fx.famOverride
+			fx.famOverride = fp
+			defer func() { fx.famOverride = saved }()
+		}
+	}
+	fx.goDepth++
+	fx.callClosure(st, lit, x.Call)
+	fx.goDepth--
+	if fx.isDead(st) {
+		return Flow{}
+	}
+	return Flow{normal: st}
 }
 
 func (fx *FuncCtx) execDefer(st *State, x *ast.DeferStmt) Flow {
-	fx.unsupportedf("defer statement")
-	return Flow{}
+	if len(x.Call.Args) != 0 {
+		fx.unsupportedf("defer with arguments")
+	}
+	fx.defers = append(fx.defers, x)
+	return Flow{normal: st}
+}
+
+// runDefers executes the deferred calls of the current frame on an exit state.
+func (fx *FuncCtx) runDefers(st *State) {
+	ds := fx.defers
+	fx.defers = nil // deferred calls may not defer further in the supported subset
+	for i := len(ds) - 1; i >= 0; i-- {
+		fx.evalCall(st, ds[i].Call)
+	}
+	fx.defers = ds
 }
